@@ -18,3 +18,39 @@ def check(ctx):
     regen.find_dirs(ctx)
     regen.cache_replay(ctx)
     c09.nullable_roundtrip(ctx)
+    skip_decision(ctx)
+
+
+def skip_decision(ctx):
+    """Regeneration is skipped only when the fresh result would be
+    identical: the lazy check compares every cached list, and a full
+    regeneration starts from the saved initial variables."""
+    import ast
+    from ..index import unparse, walk_no_nested
+    from .. import query as Q
+    R = 'SKIP-ONLY-IF-IDENTICAL'
+    ctx.rule(R, 'the lazy-skip decision compares both the found and the '
+             'extra list of every cached filter and is taken only for lazy '
+             'regenerations; a regeneration resets the variables before the '
+             'toolchain file is replayed')
+    repo = ctx.repo
+    f = repo.func('bfg9000.builtins.find:find_check_cache')
+    upd = [n for n in ast.walk(f.node) if isinstance(n, ast.Assign) and
+           unparse(n.targets[0]) == 'regenerate' and
+           'results[0] != found' in unparse(n.value) and
+           'results[1] != extra' in unparse(n.value) and
+           'regenerate or' in unparse(n.value)]
+    ctx.ob(R, 'find_check_cache|compares-found-and-extra', len(upd) == 1,
+           f.node, 'a change that only affects the extra (dist-only) matches '
+           'does not trigger a regeneration')
+    loops = [n for n in walk_no_nested(f.node) if isinstance(n, ast.For) and
+             unparse(n.iter) == 'old_cache.items()']
+    ctx.ob(R, 'find_check_cache|all-cached-filters', len(loops) == 1, f.node,
+           'not every cached filter is re-checked')
+    lt = repo.func('bfg9000.build:load_toolchain')
+    branch = [n for n in walk_no_nested(lt.node) if isinstance(n, ast.If) and
+              unparse(n.test) == 'regenerating']
+    ok = len(branch) == 1 and any(unparse(s_) == 'env.reload()'
+                                  for s_ in branch[0].body)
+    ctx.ob(R, 'load_toolchain|reload-when-regenerating', ok, lt.node,
+           'stale toolchain settings survive a regeneration')
